@@ -66,6 +66,18 @@ CHECKS = {
              'its inverse on sampled points (C16, exact arithmetic), normal draws non-zero, uniform draws in [0,1); MVEE/cholesky/inverse '
              'numerics are not verified (B Binv = 1 and B B^T = A^-1 are hypotheses).',
         tech='Lean 4 proof (structural induction on bound expressions + real-analysis leaf laws), partial: exact arithmetic; structural replay', ref='DESIGN.md §3 C07'),
+    'C08': dict(
+        text='Lean 4 theorems on a finite uniform space: the proposal scheme of Union.sample (member proportional to volume, uniform in the '
+             'member, reject outside the cube, accept with probability 1/multiplicity) returns every cell of the accepted region with equal '
+             'probability and its volume estimator is calibrated; nested network rejection; pool counters merge; Lebesgue measure of the '
+             'acceptance test (1/m) and of the radius law (t^d); closed-form ellipsoid volume = |det B| x volume of the unit ball (Mathlib). '
+             'Partial: that the float/PRNG implementation realises the scheme is validated statistically (two-sample z tests per overlap '
+             'signature and grid cell, volume calibration, family-wise alpha 1e-9), not proved. Threshold, weights, volume expressions and '
+             'loop bodies are regenerated from union.py / nautilus.py every run (rfl ties).',
+        note='Trusted: Lean kernel + standard axioms; harness/gen_c08.py, gen_c07.py; numpy Generator primitives have their documented laws; '
+             'scipy.stats.norm for thresholds. The scheme theorems do not derive the code: the tie is syntactic (loop bodies, formulas) plus the '
+             'statistical validation.',
+        tech='Lean 4 proof (finite-space uniformity/calibration + Lebesgue laws), partial; AST formula/loop translator; statistical validation', ref='DESIGN.md §3 C08'),
     'C09': dict(
         text='Lean 4 `decide` theorems over persistence tables regenerated from write/read/update of every bound class (all classes x '
              'all guard valuations): read assigns every attribute the behavioural methods use, from the key and under the guard write '
@@ -103,7 +115,7 @@ CHECKS = {
         tech='Lean 4 proof + AST translator + scripted-RNG exact differential', ref='DESIGN.md §3 C14'),
 }
 
-READY = ['C01', 'C02', 'C03', 'C05', 'C06', 'C07', 'C09', 'C10', 'C12', 'C13', 'C14', 'C15', 'C16']
+READY = ['C01', 'C02', 'C03', 'C05', 'C06', 'C07', 'C08', 'C09', 'C10', 'C12', 'C13', 'C14', 'C15', 'C16']
 
 PENDING_REASON = 'check under construction in this build round; not yet registered (see DESIGN.md §6 build order)'
 
